@@ -75,6 +75,58 @@ def field_writers(prog, struct_short, field):
     return out
 
 
+def callers_map(prog):
+    """short name -> set of short names of functions that call it statically, plus the set of functions used as values"""
+    from engine.prog import short
+    callers, as_value = {}, set()
+    for f in prog.funcs.values():
+        for b in f.blocks:
+            for ins in b["instrs"]:
+                if ins["op"] in ("Call", "Defer", "Go"):
+                    c = ins["call"]
+                    if c.get("static"):
+                        callers.setdefault(short(c["static"]), set()).add(f.short)
+                    for a in c["args"]:
+                        if a and a.get("k") == "func":
+                            as_value.add(short(a["n"]))
+                    if c.get("fn", {}).get("k") == "func" and not c.get("static"):
+                        as_value.add(short(c["fn"]["n"]))
+                elif ins["op"] == "MakeClosure":
+                    as_value.add(short(ins["fn"]))
+                else:
+                    for key in ("x", "val", "y"):
+                        v = ins.get(key)
+                        if isinstance(v, dict) and v.get("k") == "func":
+                            as_value.add(short(v["n"]))
+    return callers, as_value
+
+
+def not_confined(prog, funcs, allowed):
+    """the members of `funcs` that are neither in `allowed` nor private helpers of it. A function counts as a helper of the
+    allowed set when it is unexported, never used as a value, has at least one static caller and every caller is allowed or
+    itself such a helper - so extracting part of an allowed function into a new unexported function is not flagged, while a
+    new entry point (exported, or reachable from anywhere else) is."""
+    callers, as_value = callers_map(prog)
+    memo = {}
+
+    def ok(fn, stack=()):
+        if fn in allowed:
+            return True
+        if fn in memo:
+            return memo[fn]
+        if fn in stack:
+            return True     # recursion among helpers: decided by the other callers
+        base = fn.rsplit(".", 1)[-1]
+        if base[:1].isupper() or fn in as_value or "$" in fn:
+            memo[fn] = False
+            return False
+        cs = callers.get(fn, set())
+        r = bool(cs) and all(ok(c, stack + (fn,)) for c in cs)
+        memo[fn] = r
+        return r
+    return sorted(f for f in funcs if not ok(f))
+
+
 def scan_lemma(name, compute, functions=()):
     """structural obligation decided on the exported SSA: compute(ctx) -> (ok: bool, detail: str)"""
     def run(ctx, eng, ce):
